@@ -147,7 +147,8 @@ def run_tlc(module_path, cfg=None, workers=8, simulate=None, depth=None, tseed=N
     cfg = cfg or mod.replace(".tla", ".cfg")
     meta = os.path.join(WORK, "tlc-%d-%d" % (os.getpid(), int(time.time() * 1000) % 10**9))
     os.makedirs(meta, exist_ok=True)
-    jopts = f"-Xss1g -Xmx{xmx} -XX:+UseParallelGC"
+    jopts = f"-Xss1g -Xmx{xmx} -XX:+UseParallelGC -XX:ParallelGCThreads=4"
+    workers = min(int(workers), int(os.environ.get("VERIF_TLC_WORKERS", "8")))
     if dfs:
         jopts += " -Dtlc2.tool.queue.IStateQueue=StateDeque"
     # every directory under spec/ is on the module search path via TLA-Library
